@@ -307,6 +307,18 @@ Definition type_common (cx : dctx) (data : frame) (c : cterm) : res tterm :=
   | CN => Err EUnsupported
   end.
 
+(* diagnostic used to classify inputs: how many codings each common term receives in the first
+   and in the second analysis (Model.eval applies exactly one, encodings[name][0]) *)
+Definition coding_counts (cx : dctx) (data : frame) (m : model)
+  : res (list (string * nat) * list (string * nat)) :=
+  do tcs <- mapM (type_common cx data) (commons m);
+  do enc1 <- encoding_bools (map term_kind_info tcs);
+  do tcs2 <- add_extra_terms cx data enc1 tcs;
+  do enc2 <- encoding_bools (map term_kind_info tcs2);
+  let count enc t := (tterm_name t, match dict_get (tterm_name t) enc with
+                                    | Some l => List.length l | None => 1 end) in
+  Ok (map (count enc1) tcs, map (count enc2) tcs2).
+
 Definition eval_model (cx : dctx) (data : frame) (m : model) : res design :=
   let n := frame_rows data in
   do tcs <- mapM (type_common cx data) (commons m);
